@@ -7,6 +7,7 @@ CONSTANTS
   FixRestart = TRUE
   PruneOutsideLock = FALSE
   WeakRegistry = FALSE
+  AutoFinally = TRUE
   HeldSet <- H_both
   Hist = TRUE
   Atomic = TRUE
